@@ -161,7 +161,7 @@ func startEnv() (*scriptedTransport, *dnsScript, func()) {
 
 // ---- resolution workload ----
 
-var wkOutcomes = []string{"absent", "404", "500", "oversized-with-length", "oversized-no-length", "malformed", "no-m.server", "empty-m.server", "to-name", "to-name-port", "to-ipv4", "to-ipv4-port", "to-ipv6", "to-ipv6-port", "to-invalid", "wrong-type"}
+var wkOutcomes = []string{"absent", "404", "500", "203", "oversized-with-length", "oversized-no-length", "malformed", "no-m.server", "empty-m.server", "to-name", "to-name-port", "to-ipv4", "to-ipv4-port", "to-ipv6", "to-ipv6-port", "to-invalid", "wrong-type"}
 var srvOutcomes = []string{"none", "fed", "legacy", "both", "three", "same-target-two-ports", "same-record-twice", "trailing-dot", "fed-servfail", "legacy-servfail"}
 
 func mkSRV(target string, port uint16) dns.SRV {
@@ -231,6 +231,8 @@ func c16Resolutions(c *mon.Ctx, st *scriptedTransport, ds *dnsScript) {
 					rep.status, rep.body = 404, []byte(`{"m.server":"delegated.example"}`)
 				case "500":
 					rep.status, rep.body = 500, []byte(`{"m.server":"delegated.example"}`)
+				case "203":
+					rep.status, rep.body = 203, []byte(`{"m.server":"delegated.example"}`)
 				case "oversized-with-length":
 					rep.body = big(60000)
 				case "oversized-no-length":
@@ -426,6 +428,19 @@ func c16WellKnown(c *mon.Ctx, st *scriptedTransport) {
 		"status-404":            {status: 404, body: body, contentLength: true},
 		"status-301":            {status: 301, body: body, contentLength: true},
 		"status-204":            {status: 204, body: body, contentLength: true},
+		"status-201":            {status: 201, body: body, contentLength: true},
+		"status-202":            {status: 202, body: body, contentLength: true},
+		"status-203":            {status: 203, body: body, contentLength: true},
+		"status-206":            {status: 206, body: body, contentLength: true},
+		"status-299":            {status: 299, body: body, contentLength: true},
+		"status-100":            {status: 100, body: body, contentLength: true},
+		"status-302":            {status: 302, body: body, contentLength: true},
+		"status-304":            {status: 304, body: body, contentLength: true},
+		"status-400":            {status: 400, body: body, contentLength: true},
+		"status-403":            {status: 403, body: body, contentLength: true},
+		"status-500":            {status: 500, body: body, contentLength: true},
+		"status-503":            {status: 503, body: body, contentLength: true},
+		"status-0":              {status: 0, body: body, contentLength: true},
 		"oversized-with-length": {status: 200, body: []byte(`{"m.server":"d.example","p":"` + strings.Repeat("x", 51200) + `"}`), contentLength: true},
 		"oversized-no-length":   {status: 200, body: append([]byte(`{"m.server":"d.example"}`), []byte(strings.Repeat("\n", 51200))...), contentLength: false},
 		"exactly-50KiB":         {status: 200, body: append([]byte(`{"m.server":"d.example"}`), []byte(strings.Repeat(" ", 51200-24))...), contentLength: false},
